@@ -374,7 +374,8 @@ def c01(ctx):
 
 def c07(ctx):
     suite_tld(ctx, 1, 8 if ctx.quick() else 1, None if ctx.quick() else 0)
-    suite_idn(ctx, (2,), maxlabels=1)      # internationalised TLDs in U-label form, long U-label spellings, other dot code points
+    suite_idn(ctx, (2,), maxlabels=1, variants=("default", "mkdebug"))      # internationalised TLDs in U-label form, long U-label
+    # spellings, other dot code points; also on the Makefile's own `make debug` build (its traces must not change any outcome)
     suite_email(ctx, 2, 0, optbits=4)      # underscore build: the last label is still the whole last label
     return finish(ctx, "model_checking",
                   "every row of data/punycode.csv (of the tree under test) in lower/UPPER/mixed case behind 1-4 labels, as single label, "
@@ -416,7 +417,7 @@ def suite_idn(ctx, parts=(1, 2, 3), maxlabels=2, variants=("default",), prop="C1
         for var in variants:
             b = build(ctx, var, 0)
             res = replay(ctx, b, r["out"], "idn-%d" % part)
-            if var != "default":
+            if var in ("asan", "tsan"):
                 monitor_violation(ctx, res, "executing IDN vectors on build %s" % var)
             else:
                 crash_violation(ctx, res, ["C06", ctx.prop])
@@ -596,6 +597,10 @@ def classify_history(ctx, v, backend="idn2"):
         add_violation(ctx, "C15", w, case)
         if w == "diagnostics inconsistent":
             add_violation(ctx, "C13", w, case)
+        # the most recent validation up to the failing step: was it an IDN failure (model errcode = EEAV_IDN_ERROR)?
+        last = [k for k in range(min(v["opts"] + 1, len(steps) // 11)) if steps[11 * k] == 6]
+        if w in ("diagnostics inconsistent", "errstr NULL") and last and steps[11 * last[-1] + 5] == 2:
+            add_violation(ctx, "C19", "an IDN failure is not reported with the IDN library's message: " + w, case)
     elif w.startswith("IDN failure"):
         add_violation(ctx, "C19", w, case)
         add_violation(ctx, "C15", w, case)
@@ -619,7 +624,7 @@ def suite_object(ctx, maxhist, faults, small, backend="idn2", wrap=True, graph=T
     pool = pool or POOL
     poolvec = make_env(ctx, pool)
     if graph:   # the whole state graph: histories of every length; -coverage: every action of the object must have been taken
-        rg = tlc_ok(ctx, "MC_Eav", EAV_CFG % (backend, 0, "1" if faults else "0", "TRUE" if small else "FALSE"), timeout=3000,
+        rg = tlc_ok(ctx, "MC_Eav", EAV_CFG % (backend, 0, str(int(faults)), "TRUE" if small else "FALSE"), timeout=3000,
                     coverage=True)
         import re
         acts = {}
@@ -633,16 +638,16 @@ def suite_object(ctx, maxhist, faults, small, backend="idn2", wrap=True, graph=T
             if never:
                 raise Infra("vacuity: actions never taken in MC_Eav: %s" % never)
     if maxhist:
-        r = tlc_ok(ctx, "MC_Eav", EAV_CFG % (backend, maxhist, "1" if faults else "0", "TRUE"), timeout=3000)
+        r = tlc_ok(ctx, "MC_Eav", EAV_CFG % (backend, maxhist, str(int(faults)), "TRUE"), timeout=3000)
         sample_vectors(ctx, r["out"])
-        vec = ctx.path("hist-%d-%s.vec" % (maxhist, backend))
+        vec = ctx.path("hist-%d-%s-%d.vec" % (maxhist, backend, int(faults)))
         with open(vec, "w") as f:
             f.write(open(poolvec).read())
             for line in open(r["out"], errors="replace"):
                 if line.startswith('"[7,'):
                     f.write(line)
         b = build(ctx, variant, 0, backend)
-        res = replay(ctx, b, vec, "hist-%d-%s" % (maxhist, variant), wrap=wrap)
+        res = replay(ctx, b, vec, "hist-%d-%s-%d" % (maxhist, variant, int(faults)), wrap=wrap)
         crash_violation(ctx, res, ["C06", ctx.prop])
         for v in res["viol"]:
             classify_history(ctx, v, backend)
@@ -906,10 +911,9 @@ def c11(ctx):
                     vlib.REPO + "/", g + "/"], check=True)
     shim = os.path.join(vlib.VERIF, "harness", "perl-shim")
     textual = []
-    r1 = subprocess.run(["perl", "-I" + shim, "util/gentld.pl", "include/eav/auto_tld.h", "src/auto_tld.c", "data/punycode.csv"],
-                        cwd=g, stdout=subprocess.PIPE, stderr=subprocess.STDOUT, text=True)
-    r2 = subprocess.run(["perl", "-I" + shim, "util/gen_utf8_pass_test.pl", "data/tld-domains.txt", "data/raw.csv"],
-                        cwd=g, stdout=subprocess.PIPE, stderr=subprocess.STDOUT, text=True)
+    # ... through the repository's own recipes (`make auto`, `make tld-domains`), the documented way to regenerate
+    r1 = subprocess.run(["make", "-C", g, "auto", "PERL=perl -I" + shim], stdout=subprocess.PIPE, stderr=subprocess.STDOUT, text=True)
+    r2 = subprocess.run(["make", "-C", g, "tld-domains", "PERL=perl -I" + shim], stdout=subprocess.PIPE, stderr=subprocess.STDOUT, text=True)
     if r1.returncode or r2.returncode:
         add_violation(ctx, "C11", "generator fails on the shipped CSV", {"gentld": r1.stdout[-800:], "gen_utf8_pass_test": r2.stdout[-800:]})
     else:
@@ -947,6 +951,14 @@ def c11(ctx):
                 add_violation(ctx, "C11", "re-running the generator does not reproduce the shipped file",
                               {"file": rel, "first_differing_line": k + 1, "shipped": a[k][:200].decode(errors="replace") if k < len(a) else None,
                                "regenerated": bb[k][:200].decode(errors="replace") if k < len(bb) else None})
+    # program 4: the two CSVs name the same TLDs: the converter's A-label of every U-label row of data/raw.csv (environment answer,
+    # recorded) against the row of data/punycode.csv
+    import gen_tlddata
+    urows = [r[0] for r in gen_tlddata.rows(os.path.join(vlib.REPO, "data", "raw.csv"))]
+    conv = conv_answers(ctx, [B(u) for u in urows])
+    for i, (u, (cc, co)) in enumerate(zip(urows, conv), 1):
+        out.write(json.dumps({"e": "row", "src": "uconv", "i": i, "term": 0, "d": B(u), "len": cc, "type": 0, "a": list(co)}) + "\n")
+    out.write(json.dumps({"e": "count", "src": "uconv", "n": len(urows)}) + "\n")
     out.close()
     n, bad = validate_trace(ctx, "Trace_Table", trace, workers=1)
     for (ln, ev, note) in bad:
@@ -1012,9 +1024,14 @@ def c14(ctx):
     q = ctx.quick()
     b = build(ctx, "default", 0)
     syms, sync = writable_statics(b)
+    gm = list(getattr(writable_statics, "global_mutators", []))
+    for be in ("idn", "idnkit"):      # the other two backend source sets (partial/idn, partial/idnkit) are part of the library too
+        s2, y2 = writable_statics(build(ctx, "default", 0, be))
+        syms += ["%s/%s" % (be, x) for x in s2 if x not in syms]
+        sync = sorted(set(sync) | set(y2))
+        gm = sorted(set(gm) | set(getattr(writable_statics, "global_mutators", [])))
     ctx.cov["writable_static_storage"] = syms
     ctx.cov["synchronisation_symbols_referenced"] = sync
-    gm = getattr(writable_statics, "global_mutators", [])
     ctx.cov["process_state_mutators_referenced"] = gm
     if gm:      # the shared cell then lives in libc: every call is modelled as writing it (same TLC model, cell named after the function)
         syms = syms + ["libc:" + g for g in gm]
@@ -1131,6 +1148,21 @@ def c17(ctx):
     suite_sweep(ctx, 2, optbits=1)
     suite_sweep(ctx, 1, optbits=2)
     suite_sweep(ctx, 2, optbits=2)
+    # automata-conformance suites under the options: the state cover follows the grammar of the build
+    suite_wmethod(ctx, "local", optbits=1)
+    suite_wmethod(ctx, "local", optbits=2)
+    suite_wmethod(ctx, "host", optbits=4)
+    if not q:
+        suite_wmethod(ctx, "local", optbits=3)
+    # the options together with the README's explicit-backend invocation (make FORCE_IDN=.. DEFS=.. LIBS=.. OPTION=ON)
+    r7 = tlc_ok(ctx, "MC_Email", cfg({"MaxLen": 0, "Gen": 2, "OptBits": 7}))
+    for be in ("idn",):
+        b7 = build(ctx, "default", 7, be)
+        res = replay(ctx, b7, r7["out"], "c17-o7-%s" % be)
+        crash_violation(ctx, res, ["C06", "C17"])
+        for v in res["viol"]:
+            if v["kind"] == "email":
+                classify_email(ctx, v, 7)
     plan = [(1, [("local", 2, 5 if q else 6), ("email", 2, 0)]),
             (2, [("local", 5, 4 if q else 5), ("local", 6, 5 if q else 6), ("local", 2, 5), ("email", 2, 0)]),
             (4, [("host", 2, 0), ("host", 1, 5 if q else 7), ("email", 2, 0)]),
@@ -1172,8 +1204,16 @@ def c18(ctx):
     r_p = tlc_ok(ctx, "MC_Policy", "CONSTANTS\n  Part = 1\nINIT Init\nNEXT Next\nINVARIANT Inv\nCHECK_DEADLOCK FALSE\n")
     r_i2 = tlc_ok(ctx, "MC_Idn", "CONSTANTS\n  Part = 2\n  MaxLabels = 1\nINIT Init\nNEXT Next\nINVARIANT Inv\nCHECK_DEADLOCK FALSE\n")
     r_i3 = tlc_ok(ctx, "MC_Idn", "CONSTANTS\n  Part = 3\n  MaxLabels = 1\nINIT Init\nNEXT Next\nINVARIANT Inv\nCHECK_DEADLOCK FALSE\n")
+    base_syms, _ = writable_statics(build(ctx, "default", 0, "idn2"))
     for be in ("idn", "idnkit"):
         b = build(ctx, "default", 0, be)
+        # no backend copy keeps state of its own between calls that the libidn2 copy does not keep (C14 for every backend)
+        s2, y2 = writable_statics(b)
+        own = [x for x in s2 if x not in base_syms]
+        ctx.cov.setdefault("writable_static_storage_per_backend", {})[be] = s2
+        if own and not y2:
+            add_violation(ctx, "C18", "the %s source set has writable static storage the libidn2 build does not have: concurrent "
+                          "validations differ between the backends" % be, {"symbols": own})
         for tag, r in (("pool", r_pool), ("email", r_e), ("tld2", r_t2), ("tld1", r_t1), ("policy", r_p), ("idn2", r_i2), ("idn3", r_i3)):
             res = replay(ctx, b, r["out"], "c18-%s-%s" % (tag, be))
             crash_violation(ctx, res, ["C06", "C18"])
@@ -1186,6 +1226,15 @@ def c18(ctx):
                               {"in": ev["in"], "text": vlib.bytes_to_text(ev["in"]), "rc": ev["rc"], "mode": ev.get("mode")})
         # all call histories, with converter faults, on this backend: outcomes + create/destroy balance
         suite_object(ctx, 5 if q else 6, faults=True, small=True, backend=be, graph=True)
+        # the EAV_EXTRA strings of this backend's copies (result initialisation is a per-backend macro arm)
+        bx = build(ctx, "extra", 0, be)
+        for tag, r in (("pool", r_pool), ("tld2", r_t2)):
+            res = replay(ctx, bx, r["out"], "c18-extra-%s-%s" % (tag, be))
+            crash_violation(ctx, res, ["C06", "C18"])
+            for v in res["viol"]:
+                add_violation(ctx, "C18", "backend %s, EAV_EXTRA build: %s %s" % (be, v["kind"], v["what"]),
+                              {"in": v["in"], "text": vlib.bytes_to_text(v["in"]), "mode": v["mode"], "expected": v["exp"], "got": v["got"]})
+        suite_object(ctx, 4, faults=True, small=True, backend=be, graph=False, variant="extra")
     return finish(ctx, "model_checking",
                   "the three partial/<backend> source sets built through the repository Makefile (idn, idnkit against thin adapters over "
                   "the same converter); the address / TLD / reserved / policy vectors and all object histories of length L (with converter "
@@ -1195,6 +1244,9 @@ def c18(ctx):
 
 def c19(ctx):
     suite_object(ctx, 5, faults=True, small=True)
+    # what a failed conversion left behind must survive any walk through the modes (histories of 9 / 10 calls, mode change = one step)
+    suite_object(ctx, 9 if ctx.quick() else 10, faults=3, small=True, graph=False)
+    suite_object(ctx, 5, faults=True, small=True, graph=False, variant="ndebug")      # release build: assert() compiled out
     # recorded random histories over the large pool (it holds domains of 300-400 bytes that the real converter refuses):
     # allocation balance at every eav_free, outcome equal to a fresh object after every failure
     suite_random_histories(ctx, 20 if ctx.quick() else 200, 200)
@@ -1210,6 +1262,8 @@ def c04(ctx):
     suite_host(ctx, 2, 0)
     suite_host(ctx, 2, 0, optbits=4)        # "underscore too, only when built with LABELS_ALLOW_UNDERSCORE"
     suite_host(ctx, 1, 6 if ctx.quick() else 8)
+    suite_wmethod(ctx, "host")                 # every byte in every state of the host-name automaton (label / name counters), x W
+    suite_wmethod(ctx, "host", optbits=4)
     suite_recorded(ctx, *((800, 600, 80) if ctx.quick() else (6000, 5000, 300)))
     return finish(ctx, "model_checking",
                   "TLC enumerates host names: all strings over {letter,digit,'-','.','_',other} up to MaxLen, families for label "
@@ -1220,6 +1274,7 @@ def c04(ctx):
 def c05(ctx):
     suite_ip(ctx, 2, 0)
     suite_ip(ctx, 1, 5 if ctx.quick() else 7)
+    suite_wmethod(ctx, "ip")                   # structure bytes (thorough: every byte) in every state of the literal automaton, x W
     return finish(ctx, "model_checking",
                   "TLC enumerates domain parts '[...]': bracket content over {1,0,2,5,a,g,':','.'} up to MaxLen and families "
                   "(octet values 0..300 per position, IPv6 shapes a/b groups x widths x '::' x v4 tail x stray colons x 8 tags, "
@@ -1239,6 +1294,36 @@ def suite_sweep(ctx, part, full=False, optbits=0, variants=("default",)):
         drift_to_c15(ctx, res)
 
 
+def suite_wmethod(ctx, what="local", optbits=0, variants=("default",)):
+    """automata-conformance suites derived by TLC from layer P (MC_LocalW / MC_HostW / MC_IpW): state cover by signature over a
+    characterising set W (VIEW), then access string x every byte x W executed on the real validators"""
+    tier = 1 if ctx.quick() else 2
+    if what == "local":
+        mod, consts, need = "MC_LocalW", "  OptBits = %d\n  MaxDepth = 12\n" % optbits, 40
+    elif what == "host":
+        mod, consts, need = "MC_HostW", "  OptBits = %d\n  MaxDepth = 12\n  Tier = %d\n" % (optbits, tier), 30
+    else:
+        mod, consts, need = "MC_IpW", "  MaxDepth = 45\n  Tier = %d\n" % tier, 120
+    r = tlc_ok(ctx, mod, "CONSTANTS\n" + consts + "INIT Init\nNEXT Next\nVIEW View\nINVARIANT Inv\nCHECK_DEADLOCK FALSE\n", heap="10g")
+    acc = sum(1 for l in open(r["out"], errors="replace") if "ACCESS" in l)
+    ctx.cov.setdefault("wmethod", []).append({"module": mod, "optbits": optbits, "access_strings": acc})
+    if acc < need:
+        raise Infra("%s found only %d access strings: the characterising set no longer separates the grammar's states" % (mod, acc))
+    sample_vectors(ctx, r["out"])
+    for var in variants:
+        b = build(ctx, var, optbits)
+        res = replay(ctx, b, r["out"], "wmethod-%s-o%d" % (what, optbits))
+        crash_violation(ctx, res, ["C06", ctx.prop])
+        for v in res["viol"]:
+            if what == "local":
+                classify_local(ctx, v, optbits)
+            elif what == "host":
+                classify_host(ctx, v, optbits)
+            else:
+                classify_ip(ctx, v)
+        drift_to_c15(ctx, res)
+
+
 def c02(ctx):
     if ctx.quick():
         suite_local(ctx, 2, 5)
@@ -1246,6 +1331,7 @@ def c02(ctx):
         suite_local(ctx, 1, 5)
         suite_local(ctx, 2, 6)
     suite_sweep(ctx, 1, variants=("default", "uchar"))     # also where plain char is unsigned (ARM, PowerPC)
+    suite_wmethod(ctx, "local")                            # every byte in every state of the grammar automaton, x W
     suite_email(ctx, 2, 0)                                 # the same rules in front of every kind of domain
     suite_recorded(ctx, *((600, 900, 120) if ctx.quick() else (5000, 8000, 400)))
     return finish(ctx, "model_checking",
@@ -1264,6 +1350,7 @@ def c03(ctx):
         suite_local(ctx, 1, 5)
     suite_sweep(ctx, 1, variants=("default", "uchar"))
     suite_sweep(ctx, 2, full=not ctx.quick(), variants=("default", "uchar"))
+    suite_wmethod(ctx, "local")
     suite_email(ctx, 2, 0)
     suite_recorded(ctx, *((600, 900, 120) if ctx.quick() else (5000, 8000, 400)))
     return finish(ctx, "model_checking",
